@@ -270,7 +270,41 @@ func famKill(g *genctx, v int) *scen {
 	}
 	s.getters = []string{g.n("getg"), g.n("getf")}
 	suspends := k.suspend
+	tname, kname, loopExit := t.name, k.name, exit
 	s.drive = func(r *rand.Rand) []Call {
+		if tname == "io-length-eq" && !suspends {
+			// the guard needs exactly 8 readable bytes: top the source up to 8
+			// before every call, tracking what the body consumes
+			var out []Call
+			avail := 0
+			for round := 0; round < 6; round++ {
+				n := uint64(r.Intn(4))
+				add := 8 - avail
+				if add < 0 {
+					add = 0
+				}
+				avail += add
+				cv := uint64(1)
+				out = append(out, Call{Method: g.n("setf"), Args: []Arg{iarg(uint64(r.Intn(4)))}})
+				out = append(out, Call{Method: m, Args: []Arg{{Kind: "reader", Reader: &ReaderOp{Append: randBytes(r, add)}}, {Kind: "slice", Slice: []byte{1, 9, 9, 9}}, iarg(n), iarg(1000), {Kind: "bool", Int: cv}}})
+				times := 1
+				if loopExit == "continue" || loopExit == "fall-through" {
+					times = 3 // the loop body runs up to three times (the invariant fails earlier on a sound checker's rejects)
+				}
+				switch kname {
+				case "io-advance-partial":
+					avail -= times * int(n&3)
+				case "io-advance":
+					avail -= times * 2
+				case "io-read-fast":
+					avail -= times * 1
+				}
+				if avail < 0 {
+					avail = 0
+				}
+			}
+			return out
+		}
 		sl := func() []byte { return []byte{byte(r.Intn(4)), 9, 9, 9, 9}[:4+r.Intn(2)] }
 		rd := func(b []byte, cl bool) Arg { return Arg{Kind: "reader", Reader: &ReaderOp{Append: b, Close: cl}} }
 		call := func(src Arg, n, vv uint64, c bool) Call {
